@@ -316,6 +316,54 @@ Fixpoint spec_panic (wrote : bool) (acts : list act) : option pval :=
   end.
 
 (* ------------------------------------------------------------------ *)
+(* several requests through ONE middleware instance                     *)
+(* timeoutHandler{handler, dt} is immutable; ServeHTTP allocates the context, the
+   channels and the timeoutWriter per call.  The system state is therefore a list of
+   per-request components that share nothing; an event names the request whose
+   thread (H, D or S) moves.  An abandoned handler of an earlier request (it ignored
+   its context) is simply an H thread of its own component that is still running. *)
+
+Fixpoint upd_nth {A : Type} (n : nat) (f : A -> A) (l : list A) : list A :=
+  match l, n with
+  | [], _ => []
+  | x :: r, O => f x :: r
+  | x :: r, S n' => x :: upd_nth n' f r
+  end.
+
+Definition mev := (nat * ev)%type.
+
+Definition minit (reqs : list (hdrs * list act)) : list state :=
+  map (fun r => init (fst r) (snd r)) reqs.
+
+Definition mstepT (ss : list state) (e : mev) : list state :=
+  upd_nth (fst e) (fun s => stepT s (snd e)) ss.
+
+Definition mrun (ss : list state) (sched : list mev) : list state := fold_left mstepT sched ss.
+
+(* the events of request [i], in order *)
+Definition proj (i : nat) (sched : list mev) : list ev :=
+  map snd (filter (fun e => Nat.eqb (fst e) i) sched).
+
+Fixpoint mrun_strict (ss : list state) (sched : list mev)
+  : option (list state * list (nat * ares)) :=
+  match sched with
+  | [] => Some (ss, [])
+  | (i, e) :: r =>
+    match nth_error ss i with
+    | None => None
+    | Some s =>
+      match step s e with
+      | None => None
+      | Some (s', o) =>
+        match mrun_strict (upd_nth i (fun _ => s') ss) r with
+        | None => None
+        | Some (ss', os) => Some (ss', match e with EH => (i, o) :: os | _ => os end)
+        end
+      end
+    end
+  end.
+
+(* ------------------------------------------------------------------ *)
 (* exempt requests (Upgrade: websocket, Accept: text/event-stream) and
    TimeoutHandler(d <= 0): the handler runs against the real writer, in the
    serving goroutine; no S thread, D only matters to ACheckCtx.            *)
